@@ -956,3 +956,284 @@ def constrain_ages_wrapper(g):
             why = f"cannot encode `{ast.unparse(defs['nodes_fixed'])}`: {e}"
     g.ob(f"{name}:fixed-mask-is-the-sample-flag-bit", ok,
          "forall flags:uint32. nodes_fixed == ((flags & NODE_IS_SAMPLE) != 0)   (z3 bit-vectors)", why)
+
+
+# ---------------------------------------------------------------------------------------------
+TS_ALLOWED = {
+    # topology, node times, sample flags
+    "num_nodes", "num_edges", "num_samples", "num_trees", "sequence_length", "get_sequence_length", "nodes_time",
+    "nodes_flags", "samples", "edges_parent", "edges_child", "edges_left", "edges_right", "edges", "edge", "node",
+    "indexes_edge_insertion_order", "indexes_edge_removal_order", "trees", "first", "edge_diffs", "simplify",
+    # mutation placement (position and node)
+    "num_mutations", "mutations_node", "mutations_site", "sites_position", "mutations",
+}
+TS_ALLOWED_UNPHASED = {"nodes_individual", "individuals", "individual", "num_individuals"}
+FORBIDDEN_ANYWHERE = {"metadata", "derived_state", "ancestral_state", "population", "populations", "provenances",
+                      "num_sites", "sites", "site", "num_populations", "migrations", "mutations_time",
+                      "mutations_derived_state", "sites_ancestral_state", "nodes_population", "tables"}
+# (module, function-or-class prefix) that make up the dating cone
+CONE = [("core", ""), ("variational", ""), ("discrete", ""), ("prior", ""), ("rescaling", "count_mutations"),
+        ("rescaling", "_count_mutations"), ("phasing", "block_singletons"), ("phasing", "_block_singletons"),
+        ("util", "constrain_ages"), ("util", "contains_unary_nodes"), ("util", "mutation_span_array"),
+        ("util", "reduce_to_contemporaneous"), ("node_time_class", ""), ("demography", "")]
+# reviewed uses of otherwise forbidden names inside the cone (they do not flow into Results / node times)
+READ_EXCEPTIONS = {
+    ("core", "EstimationMethod.get_modified_ts", "dump_tables"): "result flows only into the output tables",
+    ("core", "EstimationMethod.set_time_metadata", "metadata"): "C32: existing metadata is merged into the OUTPUT rows only",
+    ("core", "EstimationMethod.set_time_metadata", "metadata_schema"): "C32",
+    ("core", "EstimationMethod.set_time_metadata._time_md_array", "metadata"): "C32",
+    ("core", "EstimationMethod.set_time_metadata._time_md_array", "metadata_schema"): "C32",
+    ("core", "EstimationMethod.get_modified_ts", "time_units"): "written, not read",
+    ("prior", "MixturePrior.__init__", "dump_tables"): "?",
+}
+
+
+def _is_ts_alias(e):
+    if isinstance(e, ast.Name):
+        return e.id in ("ts", "tree_sequence", "contmpr_ts", "base_ts")
+    if isinstance(e, ast.Attribute):
+        return e.attr in ("ts", "tree_sequence")
+    return False
+
+
+def reads_contract(g):
+    """C08: inside the dating cone, the input tree sequence is read only through topology, node times,
+    sample flags and mutation position/node (individuals only on the unphased-singleton path)."""
+    offenders, forb = [], []
+    nfun = 0
+    seen_attrs = set()
+    for module, prefix in CONE:
+        try:
+            tree, _ = extract.module_ast(module)
+        except FileNotFoundError as e:
+            g.ob(f"{module}:attach", False, "module readable", str(e), verdict="does-not-attach")
+            continue
+
+        def walk(node, qual):
+            nonlocal nfun
+            for ch in ast.iter_child_nodes(node):
+                q = qual
+                if isinstance(ch, (ast.FunctionDef, ast.ClassDef)):
+                    q = f"{qual}.{ch.name}" if qual else ch.name
+                    if isinstance(ch, ast.FunctionDef):
+                        nfun += 1
+                if isinstance(ch, ast.Attribute) and (not prefix or qual == prefix or qual.startswith(prefix + ".")):
+                    if _is_ts_alias(ch.value):
+                        seen_attrs.add(ch.attr)
+                        ok = ch.attr in TS_ALLOWED or (ch.attr in TS_ALLOWED_UNPHASED and (module == "phasing" or qual.endswith("ExpectationPropagation.__init__")))
+                        if not ok and (module, qual, ch.attr) not in READ_EXCEPTIONS and ch.attr not in ("dump_tables",) :
+                            offenders.append(f"{module}.{qual} line {ch.lineno}: reads .{ch.attr} of the input tree sequence")
+                        if ch.attr == "dump_tables" and (module, qual, "dump_tables") not in READ_EXCEPTIONS:
+                            offenders.append(f"{module}.{qual} line {ch.lineno}: dump_tables() outside get_modified_ts")
+                    if ch.attr in FORBIDDEN_ANYWHERE and (module, qual, ch.attr) not in READ_EXCEPTIONS:
+                        # attribute of any object (Node.metadata, Mutation.derived_state, ...)
+                        if not (isinstance(ch.ctx, ast.Store)):
+                            forb.append(f"{module}.{qual} line {ch.lineno}: reads .{ch.attr}")
+                walk(ch, q)
+        walk(tree, "")
+    g.ob("dating-cone:reads-of-input-within-frame", not offenders,
+         f"every attribute read on the input tree sequence in the dating cone is in the allowed frame "
+         f"{sorted(TS_ALLOWED)} (+ individuals only for unphased singletons); attributes seen: {sorted(seen_attrs)} "
+         f"[{nfun} functions scanned]", "; ".join(offenders[:6]))
+    g.ob("dating-cone:no-read-of-model-irrelevant-data", not forb,
+         f"no function in the dating cone reads {sorted(FORBIDDEN_ANYWHERE)} of any object "
+         "(exceptions: set_time_metadata merges existing metadata into the output rows)", "; ".join(forb[:6]))
+
+    # monomorphic sites: sites_position is only ever indexed by mutations_site
+    bad = []
+    for module in ("variational", "rescaling", "phasing", "util", "discrete", "prior", "core"):
+        tree, _ = extract.module_ast(module)
+        for n in ast.walk(tree):
+            if isinstance(n, ast.Attribute) and n.attr == "sites_position" and _is_ts_alias(n.value):
+                pass
+        for n in ast.walk(tree):
+            if isinstance(n, ast.Subscript) and isinstance(n.value, ast.Attribute) and n.value.attr == "sites_position":
+                if not (isinstance(n.slice, ast.Attribute) and n.slice.attr == "mutations_site") and \
+                        not (isinstance(n.slice, ast.Subscript) and "mutations_site" in ast.unparse(n.slice)):
+                    bad.append(f"{module} line {n.lineno}: sites_position[{ast.unparse(n.slice)}]")
+    uses = []
+    for module, prefix in CONE:
+        tree, _ = extract.module_ast(module)
+        for fnode in [n for n in ast.walk(tree) if isinstance(n, ast.FunctionDef)]:
+            if prefix and fnode.name != prefix.split(".")[-1]:
+                continue
+            for n in ast.walk(fnode):
+                if isinstance(n, ast.Attribute) and n.attr == "sites_position":
+                    par_ok = False
+                    for m in ast.walk(fnode):
+                        if isinstance(m, ast.Subscript) and m.value is n and "mutations_site" in ast.unparse(m.slice):
+                            par_ok = True
+                    if not par_ok:
+                        uses.append(f"{module}.{fnode.name} line {n.lineno}")
+    g.ob("dating-cone:site-positions-only-through-mutations", not uses,
+         "sites_position is only used as sites_position[mutations_site] (sites without mutations cannot influence dates)",
+         "; ".join(uses[:5]))
+
+
+# ---------------------------------------------------------------------------------------------
+def provenance_contract(g):
+    """C33: one record per call when recording, none otherwise; the record names the command and parameters."""
+    name = "provenance.record_provenance"
+    paths = g.trace(name)
+    if paths is not None:
+        def one_row(p):
+            rows = [ev for ev in p.events if ev["kind"] == "call" and ev.get("method") == "add_row"]
+            if len(rows) != 1 or rows[0]["recv"] != "tables.provenances":
+                return f"{len(rows)} add_row calls"
+            rec = rows[0]["kwargs"].get("record")
+            o = getattr(rec, "origin", None)
+            if o is None or o["func"] != "json.dumps":
+                return "record is not json.dumps(...)"
+            src = getattr(o["args"][0], "origin", None)
+            if src is None or src["func"] != "get_provenance_dict" or text_of(src["kwargs"].get("command")) != "command":
+                return "record is not get_provenance_dict(command=command, ...)"
+            if [text_of(s_) for s_ in src["star_kwargs"]] != ["{...}"] and not src["star_kwargs"]:
+                return "parameters (**kwargs) are not forwarded into the record"
+            others = [ev for ev in p.events if ev["kind"] in ("store", "store-item") or
+                      (ev["kind"] == "call" and ev.get("recv", "") and ev["recv"].startswith("tables") and ev.get("method") != "add_row")]
+            if others:
+                return "touches the tables beyond provenances.add_row"
+            return None
+        g.forall_paths(f"{name}:appends-exactly-one-row", paths, one_row,
+                       "tables.provenances.add_row(record=json.dumps(get_provenance_dict(command, start_time, **kwargs))) "
+                       "exactly once; nothing else in the tables is touched (earlier records kept: A-TS-API add_row appends)")
+    name = "provenance.get_provenance_dict"
+    fn = extract.get_function(name)
+    src = ast.unparse(fn.node)
+    ok = "parameters = dict(kwargs)" in src and "parameters['command'] = command" in src and "'parameters': parameters" in src
+    g.ctx.functions.append({**fn.describe(), "mode": "G3 structural"})
+    g.ob(f"{name}:record-has-command-and-all-parameters", ok,
+         "document['parameters'] == {**kwargs, 'command': command}", None if ok else "record construction changed")
+
+    # __init__: provenance_params recorded iff record_provenance
+    name = "core.EstimationMethod.__init__"
+    paths = g.trace(name)
+    if paths is not None:
+        def params(p):
+            v = p.heap.get("self.provenance_params")
+            on = ("record_provenance", True) in p.conds or ("record_provenance is None", True) in p.conds
+            off = ("record_provenance", False) in p.conds
+            if off:
+                if not (isinstance(v, Const) and v.v is None):
+                    return "provenance_params set although record_provenance is false"
+                return None
+            if not isinstance(v, DictVal):
+                return f"provenance_params is {text_of(v)} although recording is on"
+            want = {"mutation_rate": "mutation_rate", "recombination_rate": "recombination_rate", "time_units": "time_units",
+                    "progress": "progress"}
+            for k, w in want.items():
+                pinned_none = isinstance(v.items.get(k), Const) and v.items[k].v is None and \
+                    ((f"{w} is not None", False) in p.conds or (f"{w} is None", True) in p.conds)
+                if k not in v.items or (text_of(v.items[k]) != w and not pinned_none):
+                    return f"provenance parameter {k} is {text_of(v.items.get(k))}"
+            if "population_size" not in v.items:
+                return "population_size not recorded"
+            return None
+        g.forall_paths(f"{name}:provenance-params-iff-recording", paths, params,
+                       "self.provenance_params == dict(mutation_rate, recombination_rate, time_units, progress, population_size) "
+                       "if record_provenance (None -> True) else None", only=lambda p: p.status == "return")
+    for cls in ("InsideOutsideMethod", "MaximizationMethod", "VariationalGammaMethod"):
+        name = f"core.{cls}.run"
+        paths = g.trace(name)
+        if paths is None:
+            continue
+        fn = extract.get_function(name)
+        pnames = [a.arg for a in fn.node.args.args if a.arg != "self"]
+
+        def upd(p, pnames=pnames):
+            if ("self.provenance_params is not None", True) not in p.conds:
+                return None
+            us = [ev for ev in p.events if ev["kind"] == "call" and ev["func"] == "self.provenance_params.update"]
+            if len(us) != 1:
+                return f"{len(us)} updates of provenance_params"
+            d = us[0]["args"][0]
+            if not isinstance(d, DictVal):
+                return "update argument is not the locals() dict"
+            for k in pnames:
+                if k not in d.items or text_of(d.items[k]) != k:
+                    return f"run() parameter `{k}` is not recorded with its value"
+            if "self" in d.items:
+                return "`self` recorded in provenance"
+            return None
+        g.forall_paths(f"{name}:all-run-parameters-recorded", paths, upd,
+                       f"when recording, provenance_params is updated with every run() parameter {pnames} at its value")
+
+    name = "util.preprocess_ts"
+    paths = g.trace(name)
+    if paths is not None:
+        def prep(p):
+            if p.status != "return":
+                return None
+            cs = [ev for ev in p.events if ev["kind"] == "call" and ev["func"] == "provenance.record_provenance"]
+            on = not any(c == ("record_provenance", False) for c in p.conds)
+            if on and len(cs) != 1:
+                return f"{len(cs)} provenance records with recording on"
+            if not on and cs:
+                return "provenance recorded with recording off"
+            for ev in p.events:
+                if ev["kind"] == "call" and ev["func"] == "split_disjoint_nodes":
+                    rp = ev["kwargs"].get("record_provenance")
+                    if not (isinstance(rp, Const) and rp.v is False):
+                        return "nested split_disjoint_nodes call would add its own provenance record"
+                if ev["kind"] == "call" and ev.get("method") in ("simplify", "delete_intervals"):
+                    rp = ev["kwargs"].get("record_provenance")
+                    if not (isinstance(rp, Const) and rp.v is False):
+                        return f"tables.{ev['method']} would add its own provenance record"
+            if on:
+                a = cs[0]["args"]
+                if text_of(a[1]) != "'preprocess_ts'":
+                    return f"command recorded as {text_of(a[1])}"
+                want = ["minimum_gap", "erase_flanks", "split_disjoint", "filter_populations", "filter_individuals",
+                        "filter_sites", "delete_intervals"]
+                for k in want:
+                    if k not in cs[0]["kwargs"]:
+                        return f"parameter {k} not recorded"
+            return None
+        g.forall_paths(f"{name}:exactly-one-provenance-record-iff-recording", paths, prep,
+                       "preprocess_ts: exactly one record named 'preprocess_ts' with all its parameters when recording, "
+                       "none when off; nested calls pass record_provenance=False")
+
+
+def preprocess_frame(g):
+    """C28: what preprocess_ts does to the tables, as a call protocol."""
+    name = "util.preprocess_ts"
+    paths = g.trace(name)
+    if paths is None:
+        return
+
+    def proto(p):
+        if p.status != "return":
+            return None
+        seq = [ev.get("method") for ev in p.events if ev["kind"] == "call" and (ev.get("recv") or "").startswith("tree_sequence.dump_tables(")
+               and ev.get("method") in ("delete_intervals", "simplify", "sort", "tree_sequence", "subset", "keep_intervals", "trim", "delete_sites")]
+        has_del = any(c == ("len(delete_intervals) > 0", True) for c in p.conds) or "delete_intervals" in seq
+        for m in seq:
+            if m not in ("delete_intervals", "simplify", "sort", "tree_sequence"):
+                return f"calls tables.{m}()"
+        if "simplify" not in seq or seq.index("simplify") > seq.index("sort"):
+            return "simplify/sort order"
+        for ev in p.events:
+            if ev["kind"] == "call" and ev.get("method") == "simplify":
+                if ev["args"]:
+                    return "simplify called with an explicit sample list (samples could be dropped or re-ordered)"
+                kw = ev["kwargs"]
+                for k in ("filter_populations", "filter_individuals", "filter_sites"):
+                    if text_of(kw.get(k)) != k:
+                        return f"simplify({k}=...) is not the caller's value"
+            if ev["kind"] == "call" and ev.get("method") == "delete_intervals":
+                sm = ev["kwargs"].get("simplify")
+                if not (isinstance(sm, Const) and sm.v is False):
+                    return "delete_intervals(simplify=True) would simplify before the flags are applied"
+        return None
+    g.forall_paths(f"{name}:table-protocol", paths, proto,
+                   "tables: [delete_intervals(computed-or-user intervals, simplify=False)] -> simplify(filter_* = caller's values, "
+                   "no sample list) -> sort -> [split_disjoint_nodes] -> tree_sequence")
+
+    def exclusive(p):
+        if ("delete_intervals is not None and (minimum_gap is not None or erase_flanks is not None)", True) in p.conds or \
+                any("delete_intervals is not None" in c[0] and "minimum_gap is not None" in c[0] and c[1] for c in p.conds):
+            if p.status != "raise" or p.result != "ValueError":
+                return "user delete_intervals together with minimum_gap/erase_flanks is not rejected"
+        return None
+    g.forall_paths(f"{name}:user-intervals-exclusive", paths, exclusive,
+                   "delete_intervals given together with minimum_gap/erase_flanks  =>  ValueError")
